@@ -69,3 +69,24 @@ package proxy
 //@   loop 1
 //@     invariant kept_are_others: forall j :: 0 <= j && j < len(headers) ==> exists i :: 0 <= i && i < $i && C[i].Name != cookieName && headers[j] == cookieString(C[i].Name, C[i].Value)
 //@     invariant others_are_kept: forall i :: 0 <= i && i < $i && C[i].Name != cookieName ==> exists j :: 0 <= j && j < len(headers) && headers[j] == cookieString(C[i].Name, C[i].Value)
+
+// ---- C19: visiting the proxy's sign-out URL ------------------------------------------------------------------
+// The return address handed to the provider is <scheme>://<req.Host>/ — the same host.
+//@ func (p *OAuthProxy) SignOut(rw http.ResponseWriter, req *http.Request)
+//@   requires fresh_response: rw.$status == 0
+//@   let back = arg(@GetSignOutURL#1, 1)
+//@   ensures [C19] cookie_cleared: called(@ClearSession#1) && arg(@ClearSession#1, 1) == rw && rw.$sessionCookie == 2
+//@   ensures [C19] return_address_same_host: called(@GetSignOutURL#1) && at(@GetSignOutURL#1, back.Host) == old(req.Host) && at(@GetSignOutURL#1, back.Path) == "/" && at(@GetSignOutURL#1, back.RawQuery) == "" && at(@GetSignOutURL#1, back.Scheme) == (old(req.URL.Scheme) == "" ? (p.cookieSecure ? "https" : "http") : "")
+//@   ensures [C19] redirected_to_provider_url: rw.$status == 302 && called(@String#1) && arg(@String#1, 0) == @GetSignOutURL#1 && rw.$location == @String#1
+
+// The cross-service agreement the tests never check: the URL the proxy builds is accepted by the
+// authenticator's signature test whenever both sides hold the same secret and the check happens
+// no later than 4m59s after the signing instant `signedAt` (the window counts from the whole second).
+//@ lemmafn C19_proxy_url_accepted(enc int, uri string, secret string, signedAt int, checkedAt int)
+//@   requires uri != "" && secret != "" && urlParses(uri)
+//@   requires signedAt >= unixTime(0) && checkedAt >= signedAt && checkedAt - signedAt <= 299000000000
+//@   let secs = (signedAt - unixTime(0)) / 1000000000
+//@   ensures [C19] accepted: acceptsSigned(enc, uri, b64enc(enc, hmacOf(secret, uri + itoa(secs))), itoa(secs), secret, checkedAt)
+//@ lemmafn C19_other_secret_rejected(enc int, uri string, secret string, other string, secs int, now int)
+//@   requires hmacOf(other, uri + itoa(secs)) != hmacOf(secret, uri + itoa(secs))
+//@   ensures [C19] rejected: !acceptsSigned(enc, uri, b64enc(enc, hmacOf(other, uri + itoa(secs))), itoa(secs), secret, now)
